@@ -122,6 +122,10 @@ func c13(args []string) int {
 	add("when-too-few-args", "F1 zero", "F1", "*erro.ArgsNotMatch", func(b *mocker.Builder) { b.Func(fnzoo.F1).When().Return(1) })
 	add("when-too-few-args", "T.M zero", "T.M", "*erro.ArgsNotMatch", func(b *mocker.Builder) { b.Struct(&fnzoo.T{}).Method("M").When().Return(1) })
 	add("when-too-few-args", "F2 after default", "F2", "", func(b *mocker.Builder) { b.Func(fnzoo.F2).Return(1).When("a").Return(2) })
+	// variadic targets: the FIXED parameters must be given, in a first When and in a chained one alike
+	add("when-too-few-args", "FV zero", "FV", "", func(b *mocker.Builder) { b.Func(fnzoo.FV).When().Return(1) })
+	add("when-too-few-args", "FV after default zero", "FV", "", func(b *mocker.Builder) { b.Func(fnzoo.FV).Return(1).When().Return(2) })
+	add("when-too-few-args", "T.MV after default zero", "T.M", "", func(b *mocker.Builder) { b.Struct(&fnzoo.T{}).Method("MV").Return(1).When().Return(2) })
 	// --- too few return values
 	add("return-too-few", "F2R one", "F2R", "*erro.ReturnsNotMatch", func(b *mocker.Builder) { b.Func(fnzoo.F2R).Return(1) })
 	add("return-too-few", "F2R zero", "F2R", "*erro.ReturnsNotMatch", func(b *mocker.Builder) { b.Func(fnzoo.F2R).Return() })
@@ -266,7 +270,7 @@ func c13(args []string) int {
 				cs.Run(b)
 			}()
 			after := hash()
-			res := map[string]interface{}{"kind": "mistake", "chained": cs.Name == "F2 after default" || cs.Name == "F2R AndReturn one" || cs.Name == "F1 When..Return zero" || cs.Name == "F1 in When", "class": cs.Class, "name": cs.Name, "target": cs.Target, "premocked": premocked,
+			res := map[string]interface{}{"kind": "mistake", "chained": cs.Name == "F2 after default" || cs.Name == "FV after default zero" || cs.Name == "T.MV after default zero" || cs.Name == "F2R AndReturn one" || cs.Name == "F1 When..Return zero" || cs.Name == "F1 in When", "class": cs.Class, "name": cs.Name, "target": cs.Target, "premocked": premocked,
 				"rejected": rec != nil, "image_unchanged": after == before, "want_type": cs.WantType}
 			if rec != nil {
 				res["chain"] = chainOf(rec)
